@@ -237,7 +237,9 @@ func c16Involution(c *caseCtx) {
 		o.maxCrit = 4
 	}
 	g := genRequest(c.rng, o)
-	rev := func() M { return M{"name": "preferenceReversal", "props": M{"ratio": 1.0, "ordering": pick(c.rng, orderings), "randomSeed": c.rng.Intn(1000)}} }
+	rev := func() M {
+		return M{"name": "preferenceReversal", "props": M{"ratio": 1.0, "ordering": pick(c.rng, orderings), "randomSeed": c.rng.Intn(1000)}}
+	}
 	g.M["biases"] = []interface{}{rev(), rev()}
 	d := decide(g.body(), true)
 	c.count("evaluations", 1)
